@@ -366,7 +366,35 @@ def c13(k, ctx):
                        "thread schedules of the real engine cannot be enumerated, only perturbed; every interleaving IS enumerated in BerEngine.tla", "watchdog: 20 s per run"]
 
 
-PIPELINES = {"C13": c13, "C12": c12, "C14": c14, "C15": c15, "C18": c18, "C03": c03, "C04": c04, "C05": c05, "C01": c01, "C10": c10, "C08": c08, "C11": c11, "C02": c02, "C09": c09, "C17": c17}
+def c16(k, ctx):
+    ctx.rule = ("Mkn / Peg cases: one (configuration, seed) run whose final matrix is replayed as an insertion trace (grids over rows 3..12, cols <= 24, wr, wc, both policies, "
+                "min girth none/4/6/8, backtracking, 6 (20) seeds each; failures are counted, not judged); Twice: same config+seed again and on another thread; Seeds: digests over consecutive "
+                "seeds; Search: the rayon seed search under 1/4/16 threads vs sequential runs of every seed in range (tries 0..20); non-trivial = distinct successful runs with a girth "
+                "constraint, backtracking, or the uniform policy, plus Search cases with at least one succeeding seed")
+    for c in ("MC_MacKayNeal_1.cfg", "MC_MacKayNeal_2.cfg", "MC_MacKayNeal_3.cfg"):
+        ctx.tlc_mc("MC_MacKayNeal", c)
+    ctx.tlc_mc("MC_Peg", "MC_Peg.cfg")
+    ctx.tlc_mc("MC_Peg", "MC_Peg_2.cfg")
+    ctx.tlc_mc("MC_Bfs", "MC_Bfs_asfound.cfg" if False else "MC_Bfs.cfg")      # the local-girth / distance algorithms the constructions rely on
+    ctx.vh("gen", "i2s", timeout=3000)
+    recs, rej = ctx.validate("Trace_C16", timeout=3000)
+    ctx.require_events("Mkn", "Peg", "Twice", "Seeds", "Search")
+    for r in recs:
+        if r["e"] == "Mkn" and r.get("res") == "ok" and (r["cfg"]["min_girth"] != -1 or r["cfg"]["bt_trials"] > 0 or r["cfg"]["uniform"]):
+            ctx.nontrivial_keys.add(k.key("M", r["cfg"], r["seed"]))
+        elif r["e"] == "Peg" and r.get("res") == "ok":
+            ctx.nontrivial_keys.add(k.key("P", r["cfg"], r["seed"]))
+        elif r["e"] == "Search" and r["o"] == "ok" and r["ok_seeds"]:
+            ctx.nontrivial_keys.add(k.key("S", r["cfg"], r["start"], r["tries"], r["threads"]))
+    ctx.extra["runs"] = {"mkn_ok": sum(1 for r in recs if r["e"] == "Mkn" and r.get("res") == "ok"), "mkn_err": sum(1 for r in recs if r["e"] == "Mkn" and r.get("res") == "err"),
+                         "peg_ok": sum(1 for r in recs if r["e"] == "Peg" and r.get("res") == "ok"), "search_found": sum(1 for r in recs if r["e"] == "Search" and r.get("found")),
+                         "search_none": sum(1 for r in recs if r["e"] == "Search" and r.get("found") is False)}
+    ctx.samples = [k.sample_case(recs, 2), [x for x in (k.sample_case(recs, r["i"]) for r in recs if r["e"] == "Search" and r.get("found"))][:1]]
+    ctx.assumptions = ["TLC 1.8 + Json/IOUtils", "insertion order inside a column is read from iter_col (a hint only: TLC accepts any order of a PEG column's edges that satisfies the guards)",
+                       "sequential runs of the seeds in range (the reference for Search) use the same real run()"]
+
+
+PIPELINES = {"C16": c16, "C13": c13, "C12": c12, "C14": c14, "C15": c15, "C18": c18, "C03": c03, "C04": c04, "C05": c05, "C01": c01, "C10": c10, "C08": c08, "C11": c11, "C02": c02, "C09": c09, "C17": c17}
 NOT_YET = {}
 
 
